@@ -521,12 +521,12 @@ class InterpreterOMT(InterpreterSMT):
             return None
 
         elif cmd.name == smtcmd.MAXIMIZE:
-            g: Goal = MaximizationGoal(cmd.args[0])
+            g: Goal = MaximizationGoal(cmd.args[0], _command_is_signed(cmd))
             self.optimization_goals[0].append(g)
             return g
 
         elif cmd.name == smtcmd.MINIMIZE:
-            g = MinimizationGoal(cmd.args[0])
+            g = MinimizationGoal(cmd.args[0], _command_is_signed(cmd))
             self.optimization_goals[0].append(g)
             return g
 
@@ -573,12 +573,12 @@ class InterpreterOMT(InterpreterSMT):
             return rt
 
         elif cmd.name == smtcmd.MAXMIN:
-            g = MaxMinGoal(cmd.args[0])
+            g = MaxMinGoal(cmd.args[0], _command_is_signed(cmd))
             self.optimization_goals[0].append(g)
             return g
 
         elif cmd.name == smtcmd.MINMAX:
-            g = MinMaxGoal(cmd.args[0])
+            g = MinMaxGoal(cmd.args[0], _command_is_signed(cmd))
             self.optimization_goals[0].append(g)
             return g
 
